@@ -53,16 +53,26 @@ differ in the model).
     `PS.papplyBinary_sound3_on`; the unrelativised theorems are the instance `U` = everything.  Non-vacuity: an `example`
     with a `.partial()` store lacking the dereferenced `resource.owner` entity, where `PS.StoreCompletes` is FALSE and
     `PS.StoreCompletesOn` holds.
+  * `partial_authorization_sound_direct` (+ `reauthorize_eq_fresh_on`): the one-round statement on the **unsubstituted** store
+    lifted to policy sets — under `PS.DirectUnk pes` and the hypotheses of `partial_authorization_sound` (without `StoreCanon`),
+    `reauthorize σ pes`, on the store the caller still holds, gives in one round decision and determining policies of the fresh
+    concrete authorization.  `PolicyAgreesOn pes2` / `reauthorize_core_on pes2` generalise `PolicyAgrees` / `reauthorize_core`
+    over the second-pass store (old names = instances at `.ofConcrete es`);
+  * `concretize_request_sound`: `concretize_request σ = ok (concrete req)` (the model's do-block) implies `PS.Concretizes2 σ es
+    preq req` — side condition: a residual context lies in the fragment (`PS.CtxFrag`); `partial_authorization_sound_req` /
+    `partial_authorization_sound_direct_req`: the authorizer-level theorems with `concretize_request = ok` as the ONLY request
+    hypothesis;
+  * `unknown_call_counterexample` (kernel-checked): for policies calling `unknown("x")` the soundness statement is false in both
+    forms (the call becomes an unknown node in the first pass, is an error concretely, and is not touched by
+    `Expr::substitute`), so `fn ≠ "unknown"` in `Frag2.call` cannot be dropped; `UnknownCallSoundFull` (kept, not proved): the
+    statement relative to the desugaring `PS.desugarUnk`; `unknown_call_sound_partial`: proved for the call itself.
 Still missing w.r.t. `PinterpSoundFull`:
   * `U` over-approximates the dereferenced uids (a mentioned uid that is never dereferenced must still be present or bound);
-  * the one-round statement on the *unsubstituted* store for stores whose residual attributes are all direct unknowns is
-    proved at expression level (`pinterp_sound_store_reauth_direct`), not lifted to `reauthorize` on policy sets
-    (`PolicyAgrees` / `reauthorize_core` fix the second-pass store to `.ofConcrete es`);
   * `StoreCompletes` is stated through `evaluate ∘ substUnk` of a residual attribute, not through `RestrictedEvaluator`
-    (`rinterp`); for contexts and request entries the link to what `concretize_request` computes is proved step by step
-    (`restricted_eval_sound`, `concretize_entry_gives_conc`, `context_substitute_gives_completes`) but `PS.Concretizes2` and
-    `concretize_request = ok` are still separate hypotheses of `partial_authorization_sound`;
-  * calls of the `unknown` function in the policy text (no concrete counterpart: `Expr::substitute` does not look into them).
+    (`rinterp`); for the request this link is now proved (`concretize_request_sound`), for attribute values of the store it is
+    not (the Rust API takes the substituted store as an input, there is no `Entities::substitute` to mirror);
+  * `UnknownCallSoundFull`: the congruence "first pass of `e` = first pass of `desugarUnk e` up to desugaring of residuals"
+    through all arms of `partial_interpret`; calls `unknown(e)` with a computed name have no static desugaring at all.
 -/
 namespace Cedar.C13
 open Cedar
